@@ -129,6 +129,16 @@ CLAIMED = {
             'DESIGN.md section 3 (C14)'),
 }
 
+CLAIMED['C20'] = ('exploration',
+            'deterministic simulation: real schedule interpreter armed by the real scheduler under a virtual calendar clock over multi-day runs, sampled against an independent clause-12.24 interpreter',
+            'A LocalScheduleObject inside an application whose LocalDeviceObject reads the virtual clock runs 3-40 virtual days from a seeded instant in 1990-2099 (biased to month ends, leap days, '
+            'year ends) with seeded effective periods (open, entered, left during the run), weekly schedules, prioritised exceptions with date / range / week-n-day / calendar-reference periods and '
+            'all pattern classes, loop stalls and mid-run schedule rewrites. At +-0.75 s around every configured time-value and midnight, at noon of every day and every minute of two sampled days '
+            'the present value, the value eval() returns and the next-transition time it reports are compared with an independent interpreter; the interpreter task must stay armed, also outside '
+            'the effective period.',
+            'Trusted: the reference interpreter; ascending time-values and distinct exception priorities; no value asserted outside the effective period; no wall-clock steps; the exhaustive calendar sweep of the matchers is not claimed.',
+            'DESIGN.md section 3 (C20)')
+
 PLANNED = {k: 'check not built yet in this revision (deterministic-simulation check planned, DESIGN.md section 3); not claimed until it exists'
            for k in ['C05', 'C06', 'C10', 'C11', 'C12', 'C13', 'C14', 'C15', 'C16', 'C17', 'C19', 'C20'] if k not in CLAIMED}
 
